@@ -173,6 +173,10 @@ func (g *UndirectedMatrix) RemoveEdge(fid, tid int64) {
 	if !g.has(tid) {
 		return
 	}
+	if fid == tid {
+		// Self edges do not exist and the diagonal holds the self weight.
+		return
+	}
 	// fid and tid are not greater than maximum int by this point.
 	g.mat.SetSym(int(fid), int(tid), g.absent)
 }
